@@ -15,7 +15,8 @@
 // what reaches reply(const char*) / broadcast(const char*).
 //
 //   case:   sugar <kind> <depth> <name> <N> <mintext|-> <maxtext|-> <opts|-> <init> <ops> ...
-//     kind   P F I O OE T S1 S5 S16 AI AF AO AT PA PS CO ATM    depth 0|1
+//     kind   P F I O OE T S1 S5 S16 AI AF AO AT PA PS CO ATM AIW    depth 0|1
+//            (AIW: rArrayI on an int array - the macro's local is a char whatever the element type)
 //            (OE: rOption on a scoped-enum field; PA / PS: the two ports of rParams;
 //             CO: rCOptionCb(obj->co, (obj->co_sets++, obj->co = var)), state "co,co_sets";
 //             ATM: rArrayTCbMember(atm, on), state "other,on" per element)
@@ -72,6 +73,8 @@ struct Obj {
     uint32_t guard12;
     struct Mem { int other; bool on; } atm[BACK];      // rArrayTCbMember(atm, on)
     uint32_t guard13;
+    int   aw[BACK];    // rArrayI on elements wider than char
+    uint32_t guard14;
 };
 RunPorts Obj::ports;
 static const uint32_t GUARD = 0xa5c3e197u;
@@ -79,7 +82,7 @@ static uint32_t *guards(Obj &o, int i)
 {
     uint32_t *g[] = {&o.guard0, &o.guard1, &o.guard2, &o.guard3, &o.guard4, &o.guard5,
                      &o.guard6, &o.guard7, &o.guard8, &o.guard9, &o.guard10, &o.guard11,
-                     &o.guard12, &o.guard13};
+                     &o.guard12, &o.guard13, &o.guard14};
     return g[i];
 }
 
@@ -102,6 +105,7 @@ static const Ports tmpl = {
     {"co::i:c:S", rProp(parameter) rProp(enumerated) rDoc("d"), NULL,
         rCOptionCb(obj->co, (obj->co_sets++, obj->co = var))},
     {"atm#16::T:F", rProp(parameter) rDoc("d"), NULL, rArrayTCbMember(atm, on)},
+    rArrayI(aw, 16, "d"),
 };
 #undef rObject
 
@@ -156,13 +160,13 @@ int main()
         int depth = atoi(f[2].c_str());
         const std::string &name = f[3];
         int N = atoi(f[4].c_str());
-        static const char *kinds[] = {"P", "F", "I", "O", "T", "S1", "S5", "S16", "AI", "AF", "AO", "AT", "PA", "PS", "OE", "CO", "ATM"};
+        static const char *kinds[] = {"P", "F", "I", "O", "T", "S1", "S5", "S16", "AI", "AF", "AO", "AT", "PA", "PS", "OE", "CO", "ATM", "AIW"};
         int k = -1;
-        for(int i = 0; i < 17; ++i) if(kind == kinds[i]) k = i;
+        for(int i = 0; i < 18; ++i) if(kind == kinds[i]) k = i;
         if(k < 0) { puts("BADCASE"); continue; }
         // PA = the array half of rParams (same callback as rArrayI), PS = its alias half
         const Port &tp = tmpl.ports[k];
-        bool is_array = (k >= 8 && k <= 12) || k == 16;
+        bool is_array = (k >= 8 && k <= 12) || k == 16 || k == 17;
         bool is_str   = (k >= 5 && k <= 7);
         int  slen     = k == 5 ? 1 : k == 6 ? 5 : 16;
 
@@ -188,7 +192,7 @@ int main()
         Top t;
         Obj &o = t.sub;
         memset(&o, 0, sizeof(o));
-        for(int i = 0; i <= 13; ++i) *guards(o, i) = GUARD;
+        for(int i = 0; i <= 14; ++i) *guards(o, i) = GUARD;
         // initial state
         auto iv = split(f[8], ',');
         auto geti = [&](int i) { return i < (int)iv.size() ? atoi(iv[i].c_str()) : 0; };
@@ -211,6 +215,7 @@ int main()
             case 14: o.pe = (Mode)geti(0); break;
             case 15: o.co = geti(0); o.co_sets = geti(1); break;
             case 16: for(int i = 0; i < BACK; ++i) { o.atm[i].other = geti(2 * i); o.atm[i].on = geti(2 * i + 1) != 0; } break;
+            case 17: for(int i = 0; i < BACK; ++i) o.aw[i] = geti(i); break;
         }
 
         std::ostringstream out;
@@ -270,8 +275,9 @@ int main()
             case 14: out << (int)o.pe; break;
             case 15: out << o.co << "," << o.co_sets; break;
             case 16: for(int i = 0; i < BACK; ++i) out << (i ? "," : "") << o.atm[i].other << "," << (int)o.atm[i].on; break;
+            case 17: for(int i = 0; i < BACK; ++i) out << (i ? "," : "") << o.aw[i]; break;
         }
-        for(int i = 0; i <= 13; ++i) if(*guards(o, i) != GUARD) out << " GUARD" << i;
+        for(int i = 0; i <= 14; ++i) if(*guards(o, i) != GUARD) out << " GUARD" << i;
         // every field the case's port does not own must still be zero
         {
             Obj z; memset(&z, 0, sizeof(z));
@@ -292,6 +298,7 @@ int main()
             if(k != 14 && (int)o.pe) other = true;
             if(k != 15 && (o.co || o.co_sets)) other = true;
             if(k != 16) for(int i = 0; i < BACK; ++i) if(o.atm[i].other || o.atm[i].on) other = true;
+            if(k != 17 && memcmp(o.aw, z.aw, sizeof(o.aw))) other = true;
             if(other) out << " OTHERFIELD";
         }
         puts(out.str().c_str());
